@@ -374,6 +374,12 @@ func (r Reason) In(reasons ...Reason) (ok bool) { return slices.Contains(reasons
 
 // SetEnabled sets the status of the *DNSFilter.
 func (d *DNSFilter) SetEnabled(enabled bool) {
+	// Take the configuration lock in addition to storing atomically, since the
+	// whole configuration, including this field, is copied under that lock in
+	// WriteDiskConfig.
+	d.confMu.Lock()
+	defer d.confMu.Unlock()
+
 	atomic.StoreUint32(&d.conf.enabled, mathutil.BoolToNumber[uint32](enabled))
 }
 
